@@ -87,6 +87,11 @@ def gen_cases(tier, seed):
         content = gen.from_alphabet(rng, rng.randint(20, 120), alphabet)
         cases.append({'fn': 'make_sequence', 'content': content, 'kw': {'symbol_count': rng.randint(2, 5), 'encoding': enc},
                       'tag': 'single-byte-encoding', 'sel': 'symbol_count'})
+    # always (no sampling): a sequence of one - short content that would fit a Micro QR symbol, with and without level
+    for content in ('1', '12345', 'AB', 'HELLO WORLD', 'ab', 'abcdefghijklmno', '点', '点茗', b'\x01\x02', 7, "':"):
+        for kw in ({'symbol_count': 1}, {'symbol_count': 1, 'error': 'L'}, {'symbol_count': 1, 'error': 'Q'},
+                   {'symbol_count': 1, 'boost_error': False}, {'version': 1}, {'version': 1, 'symbol_count': 1}):
+            cases.append({'fn': 'make_sequence', 'content': content, 'kw': dict(kw), 'tag': 'single-small', 'sel': 'symbol_count'})
     # admissible requests (one mode, enough characters, far below the capacity of 16 symbols): must be answered
     # with a sequence, in every mode incl. a requested hanzi / kanji mode and for texts outside JIS X 0208
     for _ in range(120 if tier == 'quick' else 3000):
